@@ -27,11 +27,11 @@ def quadMapBatch (ps : List (QuadP α)) (energy mc2 : α) : List (Mat7 α) :=
   if ps.all (fun p => eqb p.mx 0.0 && eqb p.my 0.0) then Rs
   else List.zipWith (fun p R => misConj p.mx p.my R) ps Rs
 
-/-- the body branch of `Dipole.transfer_map` on a batch: `if torch.any(length != 0)` -/
+/-- the body of `Dipole.transfer_map` on a batch: `base_rmatrix` for every sample, then
+`R[..., 1, 6] = torch.where(length == 0, angle, R[..., 1, 6])` — decided **per sample** (since the `fix:` commit;
+before it `if torch.any(length != 0)` decided for the whole batch, the recorded and now fixed cross-talk) -/
 def dipoleBodyBatch (ps : List (DipoleP α)) (energy mc2 : α) : List (Mat7 α) :=
-  if ps.any (fun p => !(eqb p.L 0.0)) then
-    ps.map fun p => baseR0 p.L p.k1 (dipoleHx p.L p.angle) energy mc2
-  else ps.map fun p => dipoleThin p.L p.angle
+  ps.map fun p => dipoleBodyCode p energy mc2
 
 /-- the scalar body branch -/
 def dipoleBody (p : DipoleP α) (energy mc2 : α) : Mat7 α :=
